@@ -3,6 +3,8 @@ from __future__ import annotations
 
 from itertools import permutations
 
+import anyio
+
 from .common import FAIL, OK, STUBS_COMMON, Harness, P, Tape, guard, pick, run
 from .ctree import RT, Env, NodeSpec, build_classes, descendants, shapes
 
@@ -43,7 +45,8 @@ def order_fn(a, tier):
         prep = start = None
         if v == 0:
             prep = [pub, ("cp",), ("td", f"prep{i}")]
-            start = [("cp",), ("td", f"start{i}")]
+            # in start(): a context of the component's own must see what was published during this start-up
+            start = [("cp",), ("subctx", "own", RT[i], "default"), ("td", f"start{i}")]
         elif v == 1:
             start = [pub, ("cp",), ("td", f"start{i}")]
         else:
@@ -54,6 +57,7 @@ def order_fn(a, tier):
 
     async def main():
         async with Context() as ctx:
+            out["ctx"] = ctx
             out["ret"] = await start_component(classes[0], {}, timeout=1000)
             env.ev("returned")
             out["visible"] = {i: ctx.get_resources(RT[i]) for i in range(n)}
@@ -94,6 +98,11 @@ def order_fn(a, tier):
     last_root = max(j for j, e in enumerate(log) if e[0] in ("prepare_end", "start_end") and e[1] == 0)
     if env.index("returned") < last_root or out["ret"] is not env.instances[0]:
         return FAIL("order:returned-early-or-wrong-instance", log, summary)
+    for (i, label), got in env.values.items():
+        if label == "own" and got is not values[i]:
+            return FAIL("order:context-opened-inside-a-component-does-not-see-the-start-up-publications", f"node {i}: {got!r}", summary)
+        if label == "own:parent" and got is not out["ctx"]:
+            return FAIL("order:context-opened-inside-a-component-has-the-wrong-parent", f"node {i}: {got!r}", summary)
     # 3. everything belongs to the caller's context
     for i in range(n):
         if out["visible"][i] != {"default": values[i]}:
@@ -282,3 +291,75 @@ ICFG = Harness(
     stubs=STUBS_COMMON,
 )
 HARNESSES.append(ICFG)
+
+
+# ------------------------------------------------------------------------------ W-factory
+def wfac_params(tier):
+    return [P("order", 0, 1), P("bdelay", 0, 2), P("aphase", 0, 1), P("bphase", 0, 1), P("giveup_at", 1, 3)]
+
+
+@guard
+def wfac_fn(a, tier):
+    order, bdelay = pick(a["order"], 2), pick(a["bdelay"], 3)
+    aphase, bphase = pick(a["aphase"], 2), pick(a["bphase"], 2)
+    giveup_at = 1 + pick(_minus1(a["giveup_at"]), 3)
+    env = Env()
+    made = []
+
+    async def factory():
+        made.append(1)
+        await anyio.sleep(5)
+        return Val(f"product#{len(made)}")
+
+    class Val:
+        def __init__(self, label):
+            self.label = label
+
+    # A asks first and gives up after `giveup_at` ticks, while the factory (5 ticks) is still running for it;
+    # B asks `bdelay` ticks after A and must still be served
+    a_steps = [("giveup", RT[1], "made", giveup_at)]
+    b_steps = [("sleep", bdelay)] * (1 if bdelay else 0) + [("wait", "b", RT[1], "made")]
+    A = NodeSpec(1, 0, a_steps if aphase == 0 else [], a_steps if aphase == 1 else [], alias="a")
+    B = NodeSpec(2, 0, b_steps if bphase == 0 else [], b_steps if bphase == 1 else [], alias="b")
+    kids = [A, B] if order == 0 else [B, A]
+    root = NodeSpec(0, -1, [("fac", "F", factory, "made", [RT[1]])], [])
+    nodes = sorted([root] + kids, key=lambda n: n.idx)
+    classes = build_classes(env, nodes)
+
+    async def main():
+        async with Context():
+            await start_component(classes[0], {}, timeout=1000)
+
+    _, exc, _k = run(main)
+    summary = {"declared_first": "A" if order == 0 else "B", "B_asks_after_ticks": bdelay, "A_gives_up_after_ticks": giveup_at,
+               "A_in": ["prepare", "start"][aphase], "B_in": ["prepare", "start"][bphase]}
+    if exc is not None:
+        return FAIL(f"wfactory:sibling-never-served-after-the-generating-sibling-gave-up:{type(exc).__name__}", f"{exc!r} log={env.log}", summary)
+    got = env.values.get((2, "b"))
+    if got is None or not hasattr(got, "label"):
+        return FAIL("wfactory:wrong-object", repr(got), summary)
+    return OK(summary, True)
+
+
+def _minus1(v):
+    from symkit.choose import is_concrete, resumed
+
+    if is_concrete(v):
+        return v - 1
+    with resumed():
+        return v - 1
+
+
+WFAC = Harness(
+    prop="C05",
+    name="W-factory",
+    fn=wfac_fn,
+    params=wfac_params,
+    cube=lambda tier: 0,
+    title="a sibling that gives up while it is generating an async-factory resource must not block the sibling waiting behind it",
+    bound_text=lambda tier: "parent publishes an async factory (5 ticks); child A requests it and gives up after 1-3 ticks; child B requests it 0-2 ticks after A; phases and declaration order vary",
+    oracle="start_component completes and B gets a product of the factory",
+    outside="-",
+    stubs=STUBS_COMMON,
+)
+HARNESSES.append(WFAC)
